@@ -156,6 +156,8 @@ class ByteArray(SimpleModel):
 
     @classmethod
     def from_hex(cls, value):
+        if isinstance(value, six.text_type):
+            value = value.encode('ascii')
         return (unhexlify(_bytes_join(value)),)
 
 
